@@ -91,6 +91,16 @@ def model():
     typed_output('Odd_ok', 'tOdd', '{price/unit: 1, unit price: 2}')
     typed_output('OddRows_ok', 'tOddRows', '[{price/unit: 1, unit price: 2}, {price/unit: 3, unit price: 4}]')
     typed_output('OddRows_bad', 'tOddRows', '[{price/unit: 1, unit price: "x"}]')
+    # a collection output with ONE or TWO items of another kind at every position of lists of 2..6 items: one item out of kind makes the whole list null
+    mixes = []
+    for n in range(2, 7):
+        for bad in [(i,) for i in range(n)] + [(i, i + 1) for i in range(n - 1)]:
+            items = ['"x%d"' % i if i in bad else str(i + 1) for i in range(n)]
+            name = 'Mix_%d_%s' % (n, '_'.join(str(b) for b in bad))
+            typed_output(name, 'tList_number', '[' + ', '.join(items) + ']')
+            mixes.append('Out_' + name)
+        typed_output('Mix_%d_ok' % n, 'tList_number', '[' + ', '.join(str(i + 1) for i in range(n)) + ']')
+    model.mixes = mixes
     # knowledge models invoked BY NAME: the result of the body is coerced to the type of the knowledge model's variable (wrap, unwrap, unchanged, null)
     bkms = []
     for (n_, tref, text) in (('wrap', 'tList_number', '5'), ('unwrap', 'number', '[7]'), ('same', 'number', '7'), ('list', 'tList_number', '[1, 2]'), ('wrong', 'number', '"a"'), ('wrong_item', 'tList_number', '["a"]'),
@@ -151,6 +161,7 @@ def cases():
         out.append(('{InAlias: %s}' % w, {'Echo_InAlias': e}))
         if w not in ('4', '0'):   # whether allowed values also constrain an OUTPUT is not stated by the property
             out.append(('{}', {'Out_Small_%s' % w.strip('"'): e}))
+    out.append(('{}', dict([(m_, 'null') for m_ in model.mixes] + [('Out_Mix_%d_ok' % n, '[' + ', '.join(str(i + 1) for i in range(n)) + ']') for n in range(2, 7)])))
     out.append(('{InOdd: {price/unit: 1, unit price: 2}}', {'Echo_InOdd': '{price/unit: 1, unit price: 2}'}))
     out.append(('{InOddRows: [{price/unit: 1, unit price: 2}]}', {'Echo_InOddRows': '[{price/unit: 1, unit price: 2}]'}))
     out.append(('{}', {'Out_Odd_ok': '{price/unit: 1, unit price: 2}', 'Out_OddRows_ok': '[{price/unit: 1, unit price: 2}, {price/unit: 3, unit price: 4}]', 'Out_OddRows_bad': 'null',
